@@ -267,3 +267,64 @@ def guards_say(guards, atom):
         return None
     vals = [eval_cond(g, orc) for g in guards]
     return any(v is True for v in vals) and not any(v is False for v in vals)
+
+
+def enumerate_list(v, oracle):
+    """Concrete list of canonical elements of a list-valued canonical form under an oracle for its conditions, or None when
+    some condition is not decided / the form is not understood.  Handles literals, splices, conditionals and comprehensions
+    over enumerable iterables."""
+    from .sym import eval_cond
+    if not isinstance(v, tuple) or not v:
+        return None
+    if v[0] in ("list", "tuple"):
+        out = []
+        for item in v[1]:
+            if isinstance(item, tuple) and item and item[0] == "splice":
+                sub = enumerate_list(item[1], oracle)
+                if sub is None:
+                    return None
+                out.extend(sub)
+            else:
+                out.append(item)
+        return out
+    if v[0] == "phi":
+        r = eval_cond(v[1], oracle)
+        if r is None:
+            return None
+        return enumerate_list(v[2] if r else v[3], oracle)
+    if v[0] == "comp":
+        _t, elt, bv, it, conds = v
+        base = enumerate_list(it, oracle)
+        if base is None:
+            return None
+        out = []
+        for x in base:
+            keep = True
+            for c in conds:
+                r = eval_cond(subst(c, bv, x), oracle)
+                if r is None:
+                    return None
+                if r is False:
+                    keep = False
+            if keep:
+                out.append(subst(elt, bv, x))
+        return out
+    if v[0] == "call" and v[1] in ("list", "tuple") and len(v[2]) == 1:
+        return enumerate_list(v[2][0], oracle)
+    return None
+
+
+def optional_string_oracle(assign):
+    """oracle for scenarios of optional string values: assign maps canonical atoms to None, '' or 'x' (any non-empty string)"""
+    def oracle(c):
+        if isinstance(c, tuple) and c:
+            if c[0] == "cmp" and c[1] in ("is", "==") and c[3] == ("const", None) and c[2] in assign:
+                return assign[c[2]] is None
+            if c[0] == "cmp" and c[1] == "==" and c[3] == ("const", "") and c[2] in assign:
+                return assign[c[2]] == ""
+            if c in assign:
+                return bool(assign[c])
+            if c[0] == "len" and c[1] in assign and assign[c[1]] is not None:
+                return len(assign[c[1]]) > 0
+        return None
+    return oracle
